@@ -173,11 +173,13 @@ func typecheck(r *engine.R, src string) {
 var byteAlphabet = []byte{'a', 'B', '1', ' ', '\n', '\r', '"', '\'', '`', '\\', '#', '$', '{', '}', '%', '/', '|', '-', '>', '.', ':', '@', '[',
 	0xC3, 0xA9, 0xFF}
 
-func bytesBlock(r *engine.R, prefix []byte, depth int) {
+func bytesBlock(r *engine.R, prefix []byte, depth int, withPrefixItself bool) {
 	buf := append([]byte{}, prefix...)
 	var rec func(d int)
 	rec = func(d int) {
-		parseInput(r, string(buf), true)
+		if withPrefixItself || len(buf) > len(prefix) {
+			parseInput(r, string(buf), true)
+		}
 		if d == 0 {
 			return
 		}
@@ -310,10 +312,12 @@ func regexOne(r *engine.R, body string) {
 	}
 }
 
-func regexBlock(r *engine.R, prefix string, depth int) {
+func regexBlock(r *engine.R, prefix string, depth int, withPrefixItself bool) {
 	var rec func(s string, d int)
 	rec = func(s string, d int) {
-		regexOne(r, s)
+		if withPrefixItself || len(s) > len(prefix) {
+			regexOne(r, s)
+		}
 		if d == 0 {
 			return
 		}
@@ -397,11 +401,11 @@ func run(c *engine.Ctx) {
 	if c.Thorough {
 		maxLen = 5
 	}
-	c.Case("bytes/len<=1", func(r *engine.R) { bytesBlock(r, nil, 1) })
+	c.Case("bytes/len<=2", func(r *engine.R) { bytesBlock(r, nil, 2, true) }) // shortest inputs first: the first counterexample is the smallest
 	for _, b1 := range byteAlphabet {
 		for _, b2 := range byteAlphabet {
 			p := []byte{b1, b2}
-			c.Case(fmt.Sprintf("bytes/%q", p), func(r *engine.R) { bytesBlock(r, p, maxLen-2) })
+			c.Case(fmt.Sprintf("bytes/%q", p), func(r *engine.R) { bytesBlock(r, p, maxLen-2, false) })
 		}
 	}
 	// (b)
@@ -455,11 +459,11 @@ func run(c *engine.Ctx) {
 	if c.Thorough {
 		rlen = 4
 	}
-	c.Case("regex/len<=1", func(r *engine.R) { regexBlock(r, "", 1) })
+	c.Case("regex/len<=2", func(r *engine.R) { regexBlock(r, "", 2, true) })
 	for _, u1 := range regexAlphabet {
 		for _, u2 := range regexAlphabet {
 			p := u1 + u2
-			c.Case(fmt.Sprintf("regex/%q", p), func(r *engine.R) { regexBlock(r, p, rlen-2) })
+			c.Case(fmt.Sprintf("regex/%q", p), func(r *engine.R) { regexBlock(r, p, rlen-2, false) })
 		}
 	}
 	// (d)
